@@ -27,21 +27,34 @@ func c19Format(src string) (out string, err error) {
 	return formatter.FormatString(src)
 }
 
-// front-matter block as the engine's loader sees it: a first line "---" ... a closing line "---"
+// front-matter block: a first line starting with "---" up to and including the next line starting with
+// "---" (whatever else that line holds: a carriage return, blanks, more dashes, a comment)
 func c19Split(src string) (fm, body string) {
-	if !strings.HasPrefix(src, "---\n") {
+	if !strings.HasPrefix(src, "---") {
 		return "", src
 	}
-	rest := src[4:]
-	i := strings.Index("\n"+rest, "\n---\n")
-	if i < 0 {
+	nl := strings.Index(src, "\n")
+	if nl < 0 {
 		return "", src
 	}
-	end := 4 + i + 4 // past the closing line
-	if end > len(src) {
-		end = len(src)
+	pos := nl + 1
+	for pos <= len(src) {
+		end := strings.Index(src[pos:], "\n")
+		line := src[pos:]
+		next := len(src)
+		if end >= 0 {
+			line = src[pos : pos+end]
+			next = pos + end + 1
+		}
+		if strings.HasPrefix(line, "---") {
+			return src[:next], src[next:]
+		}
+		if end < 0 {
+			break
+		}
+		pos = next
 	}
-	return src[:end], src[end:]
+	return "", src
 }
 
 var c19DoctypeRe = regexp.MustCompile(`(?i)^\s*(<!doctype[^>]*>)`)
@@ -189,7 +202,7 @@ var c19AttrVals = []string{
 	`a > b`, `a &amp;&amp; b`, `x &lt; 1 ? 'y' : 'n'`, `say &quot;hi&quot;`, `it's`, `{ on: a > 1, off: !b }`, "multi\n    line   value", `  padded  `,
 	`{{ v }} and &amp; more`, `a&amp;b=c`, `&copy; 2026`, `x >= 1 &amp;&amp; y <= 2`, `[1, 2, 3]`, `fn('a', &quot;b&quot;)`, `100%`, `#/path?a=1&amp;b=2`,
 }
-var c19Mustaches = []string{`{{ a < b }}`, `{{ a > b && c }}`, `{{ x | upper }}`, `{{ a ? "<" : '&' }}`, `{{ items[0].name }}`, `{{  spaced   out  }}`, `{{ a }}{{ b }}`, `{{ "&lt;" }}`, `{{ "&amp;lt;" }}`, `{{ a &amp;&amp; b }}`, `{{ n >= 10 ? "10+" : n }}`}
+var c19Mustaches = []string{`{{ a < b }}`, `{{ a > b && c }}`, `{{ x | upper }}`, `{{ a ? "<" : '&' }}`, `{{ items[0].name }}`, `{{  spaced   out  }}`, `{{ a }}{{ b }}`, `{{ "&lt;" }}`, `{{ a &lt;b }}`, `{{ x &lt;/y }}`, `{{ "&amp;lt;" }}`, `{{ a &amp;&amp; b }}`, `{{ n >= 10 ? "10+" : n }}`}
 
 func c19Text(r *Rng) string {
 	var ws []string
@@ -275,13 +288,32 @@ func c19Block(r *Rng, depth int) string {
 		case x < 8:
 			sb.WriteString("<div" + c19Attrs(r) + ">" + c19Text(r) + "<p>" + c19Inline(r, 0) + "</p>" + c19Text(r) + "</div>")
 		case x < 9:
-			sb.WriteString("<pre" + c19Attrs(r) + ">line1\n  indented " + c19Text(r) + "\n\n<b>bold</b>\tend </pre>")
+			if r.Intn(3) == 0 { // an inline or phrasing parent whose later child is a block, pre or raw-text element
+				par := Pick(r, []string{"td", "a", "label", "span", "button", "summary", "dd"})
+				late := Pick(r, []string{"<div>blk " + c02Word(r) + "</div>", "<pre>  first\n    second &lt; x</pre>", "<script>if (a < b && c) { go(); }</script>", "<ul><li>i</li></ul>", "<p>para</p>"})
+				inner := "<strong>" + c02Word(r) + ":</strong>" + Pick(r, []string{"", " "}) + late
+				if par == "td" {
+					sb.WriteString("<table><tbody><tr><td>" + inner + "</td></tr></tbody></table>")
+				} else if par == "summary" {
+					sb.WriteString("<details><summary>" + inner + "</summary></details>")
+				} else if par == "dd" {
+					sb.WriteString("<dl><dd>" + inner + "</dd></dl>")
+				} else {
+					sb.WriteString("<" + par + ">" + inner + "</" + par + ">")
+				}
+				break
+			}
+			sb.WriteString("<pre" + c19Attrs(r) + ">" + Pick(r, []string{"", "", "\n", "\n\n"}) + "line1\n  indented " + c19Text(r) + "\n\n<b>bold</b>\tend </pre>")
 		case x < 10:
 			sb.WriteString("<script>\n  if (a < b && c > d) { x = \"" + c02Word(r) + "\"; }\n</script>")
 		case x < 11:
 			sb.WriteString("<style>\n  p > a { color: red; }\n  .x::before { content: \"&\"; }\n</style>")
 		default:
-			sb.WriteString("<!-- " + c02Word(r) + " -->")
+			if r.Intn(3) == 0 {
+				sb.WriteString(`<svg viewBox="0 0 10 10"><use xlink:href="#i" xml:lang="en"></use><circle cx="5" cy="5" r="4"></circle></svg>`)
+			} else {
+				sb.WriteString("<!-- " + c02Word(r) + " -->")
+			}
 		}
 		sb.WriteString(sep)
 	}
@@ -311,9 +343,19 @@ func runC19(r *Run) {
 	}
 	for i := 0; i < n; i++ {
 		body := c19Block(rr, 1+rr.Intn(3))
-		switch rr.Intn(8) {
+		switch rr.Intn(10) {
 		case 0:
 			body = "<!DOCTYPE html>\n<html" + Pick(rr, []string{"", ` lang="en"`}) + "><head><title>" + c19Text(rr) + "</title><meta charset=\"utf-8\"></head><body" + c19Attrs(rr) + ">" + body + "</body></html>\n"
+		case 3:
+			body = Pick(rr, []string{"<!doctype html>", "<!DOCTYPE html>", "<!DocType HTML>"}) + "\n<html><head><title>t</title>" + Pick(rr, []string{"", "<noscript><link rel=\"stylesheet\" href=\"a.css?x=1&amp;y=2\"></noscript>"}) + "</head><body>" + body + "</body></html>\n"
+		case 4:
+			fence := Pick(rr, []string{"---\r", "--- ", "----", "--- # end", "---"})
+			nlc := "\n"
+			if fence == "---\r" {
+				body = "---\r\ntitle: x\r\n" + fence + "\n" + body
+			} else {
+				body = "---" + nlc + "title: x" + nlc + fence + nlc + body
+			}
 		case 1:
 			body = "---\ntitle: " + c02Word(rr) + "\nlayout: base\nitems:\n  - a\n  - \"b: c\"\n---\n" + body
 		case 2:
@@ -329,7 +371,7 @@ func runC19(r *Run) {
 	}
 	for i := 0; i < nm; i++ {
 		body := c19Block(rr, 1+rr.Intn(3))
-		if strings.Contains(body, "<!--") || strings.Contains(body, "<pre") || strings.Contains(body, "<script") || strings.Contains(body, "<style") || strings.Contains(body, "&nbsp;") || strings.Contains(body, "<template") {
+		if strings.Contains(body, "<!--") || strings.Contains(body, "<pre") || strings.Contains(body, "<script") || strings.Contains(body, "<style") || strings.Contains(body, "&nbsp;") || strings.Contains(body, "<template") || strings.Contains(body, "<svg") {
 			continue
 		}
 		out, err := c19Format(body)
